@@ -987,6 +987,13 @@ Lemma close_pinned_refuted :
              r = ROk /\ wbuf st' <> [] /\ wire evs = [].
 Proof. exists (mkW [0] [] [] []). cbn. repeat split. discriminate. Qed.
 
+Lemma write_ready_spec st : write_ready st = (wlen st <? HW)%N.
+Proof.
+  unfold write_ready, wlen, hw_pred, HW. destruct (skipn _ (wbuf st)) as [|b t] eqn:E; symmetry.
+  - apply N.ltb_lt. apply (f_equal (@length Z)) in E. rewrite skipn_length in E. cbn [length] in E. lia.
+  - apply N.ltb_ge. apply (f_equal (@length Z)) in E. rewrite skipn_length in E. cbn [length] in E. lia.
+Qed.
+
 Section WriteFacts.
   Variable I : Type.
   Variable encode : I -> list Z -> bool * list Z.
@@ -1100,15 +1107,15 @@ Section WriteFacts.
 
   (* C14_backpressure *)
   Theorem ready_below_hw st : (wlen st < HW)%N -> wstep st OReady = (ROk, st, []).
-  Proof. intros H. cbn [Framed.wstep]. unfold write_ready. apply N.ltb_lt in H. now rewrite H. Qed.
+  Proof. intros H. cbn [Framed.wstep]. rewrite write_ready_spec. apply N.ltb_lt in H. now rewrite H. Qed.
 
   Theorem ready_at_hw st : (HW <= wlen st)%N -> wstep st OReady = wstep st OFlush.
-  Proof. intros H. cbn [Framed.wstep]. unfold write_ready. apply N.ltb_ge in H. now rewrite H. Qed.
+  Proof. intros H. cbn [Framed.wstep]. rewrite write_ready_spec. apply N.ltb_ge in H. now rewrite H. Qed.
 
   Theorem ready_ok_not_full st st' evs :
     wstep st OReady = (ROk, st', evs) -> (wlen st' < HW)%N.
   Proof.
-    cbn [Framed.wstep]. unfold write_ready. destruct (N.ltb_spec (wlen st) HW) as [Hlt|Hge]; intros H.
+    cbn [Framed.wstep]. rewrite write_ready_spec. destruct (N.ltb_spec (wlen st) HW) as [Hlt|Hge]; intros H.
     - injection H as <- <-. exact Hlt.
     - destruct (flush_spec _ _ _ _ H) as (_ & Hok & _). destruct (Hok eq_refl) as [Hb _].
       unfold wlen. rewrite Hb. reflexivity.
